@@ -1,4 +1,5 @@
 import Amgcl.Proofs.CPRWalk
+import Amgcl.Proofs.KernelsSort
 /-!
 `first_scalar_pass` for sorted rows (C18): the diagonal block of a block row is visited at most once, so the weights do
 not depend on `get_app` — `update_transfer` (which stops right after the diagonal block) recomputes exactly the `Fpp`
@@ -121,6 +122,7 @@ theorem fppScalar_eq_init (A : CRS K) (hA : A.sortedb = true) (B act : Nat) (hB 
 theorem partialUpdateScalar_same (A : CRS K) (hA : A.sortedb = true) (B act : Nat) (hB : 0 < B) (upd : Bool) :
     partialUpdateScalar (initScalar A B act) A B act upd = initScalar A B act := by
   unfold partialUpdateScalar
+  rw [K2.sortRows_of_sorted A hA]
   cases upd with
   | false => rfl
   | true =>
